@@ -21,7 +21,7 @@ from .c10 import tri_area, tri_volume
 
 KINDS = ["Box", "Sphere", "Cylinder", "Capsule", "Extrusion"]
 OPS = ["set_param", "inplace_param", "set_transform", "inplace_transform", "set_center", "apply_transform", "apply_translation", "apply_scale", "read", "copy", "to_mesh",
-       "bad_attribute", "bad_transform", "cache_clear", "mirror_transform"]
+       "bad_attribute", "bad_transform", "cache_clear", "mirror_transform", "set_param_pair", "negate_height"]
 READS = ["vertices", "faces", "volume", "area", "bounds", "face_normals", "moment_inertia", "is_watertight", "center_mass", "triangles"]
 SHELL = [(0, 0), (2, 0), (2.3, 1.2), (1, 2), (-0.2, 1)]
 HOLES = [[(0.6, 0.5), (1.2, 0.5), (1.0, 1.1)], [(1.4, 1.0), (1.8, 1.0), (1.6, 1.3)]]
@@ -90,6 +90,8 @@ class C15(World):
         m = {"radius": round(rng.uniform(0.3, 2.5), 3), "height": round(rng.uniform(0.4, 4.0), 3), "extents": [round(rng.uniform(0.4, 3.0), 3) for _ in range(3)],
              "sections": rng.choice([3, 4, 5, 8, 32]), "subdivisions": rng.choice([0, 1, 2, 3]), "holes": rng.choice([0, 1, 2]),
              "transform": (mx.make(rng, rng.choice(["identity", "translation", "rigid", "rigid"]))).tolist()}
+        if kind == "Extrusion" and rng.random() < 0.25:
+            m["height"] = -m["height"]  # an extrusion may run against its axis
         ops = [{"op": "build", "model": m, "mutable": rng.random() < 0.9, "rs": rng.randrange(2**31)}]
         for _ in range(cfg["n_ops"]):
             k = pick(rng, cfg["weights"])
@@ -99,6 +101,9 @@ class C15(World):
                 op["cls"], op["matrix"] = cls, mx.make(rng, cls).tolist()
             if k in ("apply_translation", "inplace_transform", "set_center"):
                 op["vec"] = mx.rand_translation(rng).tolist()
+            if k == "set_param_pair":
+                op["mode"] = rng.choice(["swap", "equal", "equal", "random"])
+                op["v"] = round(rng.uniform(0.5, 3.0), 3)
             if k == "read":
                 op["names"] = rng.sample(READS, rng.randint(1, 4))
             if k == "copy":
@@ -241,6 +246,24 @@ class C15(World):
                 setattr(prim, name, new)
                 m[name] = new
             return name
+        if k == "set_param_pair":
+            # two assignments with no read in between (swapped or equal values leave a commutative / self-cancelling store hash unchanged)
+            if kind not in ("Cylinder", "Capsule"):
+                raise Inapplicable()
+            if not mutable:
+                raise Inapplicable()
+            r0, h0 = m["radius"], m["height"]
+            r1, h1 = {"swap": (h0, r0), "equal": (op["v"], op["v"]), "random": (r0 * f, h0 / f)}[op["mode"]]
+            prim.radius = r1
+            prim.height = h1
+            m["radius"], m["height"] = r1, h1
+            return op["mode"]
+        if k == "negate_height":
+            if kind != "Extrusion" or not mutable:
+                raise Inapplicable()
+            prim.height = -m["height"]
+            m["height"] = -m["height"]
+            return "ok"
         if k == "inplace_param":
             return self._inplace_param(kind, prim, m, op)
         if k == "set_transform":
@@ -391,10 +414,18 @@ class C15(World):
             per = poly_perimeter(SHELL) + sum(poly_perimeter(hh) for hh in HOLES[: m["holes"]])
             if np.minimum(np.abs(L[:, 2]), np.abs(L[:, 2] - h)).max() > tol:
                 fail("surface", "extrusion vertices are not on the two cap planes")
-            if same(mesh_vol, A * h, 1e-9, "v") or same(float(p.volume), A * h, 1e-9, "v"):
-                fail("analytic", f"extrusion volume {mesh_vol}/{p.volume} != area*height {A * h}")
-            if same(tri_area(V[F]), 2 * A + per * h, 1e-9, "a") or same(float(p.area), 2 * A + per * h, 1e-9, "a"):
-                fail("analytic", "extrusion area != 2*A + perimeter*height")
+            if same(mesh_vol, A * abs(h), 1e-9, "v") or same(float(p.volume), A * abs(h), 1e-9, "v"):
+                fail("analytic", f"extrusion volume {mesh_vol}/{p.volume} != area*|height| {A * abs(h)}")
+            if same(tri_area(V[F]), 2 * A + per * abs(h), 1e-9, "a") or same(float(p.area), 2 * A + per * abs(h), 1e-9, "a"):
+                fail("analytic", "extrusion area != 2*A + perimeter*|height|")
+            # the reported direction is the unit vector from the base plane into the solid
+            d = np.asarray(p.direction, dtype=float)
+            want_d = T[:3, :3] @ np.array([0.0, 0.0, 1.0 if h >= 0 else -1.0])
+            if same(d, want_d, 1e-9, "direction"):
+                fail("direction", f"direction {d.tolist()} != axis of the solid {want_d.tolist()}")
+            along = (V - T[:3, 3]) @ d
+            if along.min() < -tol or along.max() > abs(h) + tol:
+                fail("direction", "vertices do not lie between the base plane and |height| along the reported direction")
         if kind != "Sphere" and same(np.asarray(p.bounds), np.array([V.min(axis=0), V.max(axis=0)]), 1e-9, "bounds"):
             fail("bounds", "bounds differ from the mesh extent")
 
